@@ -28,7 +28,7 @@ M0 == [run |-> "", kind |-> "", shim |-> "program", tls |-> FALSE, ctls |-> FALS
        phase |-> "greet", inb |-> << >>, q |-> << >>, ob |-> << >>, unfl |-> 0, cur |-> 0,
        reg |-> << >>, lost |-> FALSE, free |-> FALSE, fault |-> FALSE, eof |-> FALSE, dead |-> "", token |-> -1,
        quit |-> FALSE, enc |-> FALSE, raw |-> << >>, hsdone |-> FALSE, blocked |-> FALSE,
-       floats |-> << >>, n |-> Stats0, done |-> FALSE, panics |-> << >>, wpanic |-> FALSE, ever |-> {}, eintr |-> FALSE]
+       floats |-> << >>, n |-> Stats0, done |-> FALSE, panics |-> << >>, wpanic |-> FALSE, ever |-> {}, eintr |-> FALSE, partial |-> FALSE, closing |-> FALSE]
 
 Init == l = 1 /\ m = M0 /\ viol = {}
 
@@ -36,6 +36,8 @@ Init == l = 1 /\ m = M0 /\ viol = {}
 RegFind(reg, id) == LET S == {i \in 1..Len(reg) : reg[i].id = id} IN IF S = {} THEN 0 ELSE CHOOSE i \in S : TRUE
 RegPut(reg, e) == LET i == RegFind(reg, e.id) IN IF i = 0 THEN Append(reg, e) ELSE [reg EXCEPT ![i] = e]
 RegDel(reg, id) == SelectSeq(reg, LAMBDA e : e.id # id)
+WellFormedTime(b) == Len(b) \in {8, 12} /\ b[1] = 0 /\ b[6] < 24 /\ b[7] < 60 /\ b[8] < 60
+                     /\ (Len(b) = 12 => b[12] = 0 /\ b[9] + 256 * b[10] + 65536 * b[11] < 1000000)
 \* bound types after a malformed parameter block (no well-formed reuse execution can be decoded with them)
 UnknownTypes == <<[ty |-> -1, uns |-> FALSE]>>
 NoLong == [x \in {} |-> << >>]
@@ -251,7 +253,11 @@ SyncViol(mm, at) ==
         THEN {V("C03", at, "a command that expects a reply has none when the server waits for input"),
               V("C12", at, "server waits for input while it owes a reply")} ELSE {})
        \cup (IF mm.dead = "" /\ ~mm.quit /\ FirstNew(mm.q) # 0
-             THEN {V("C12", at, "server waits for input although a complete command is buffered")} ELSE {})
+             THEN {V("C12", at, "server waits for input although a complete command is buffered")}
+                  \cup (IF mm.q[FirstNew(mm.q)].cls.cb # ""
+                        THEN {V("C02", at, "the server asks for more input although a received command has not reached its callback " \o mm.q[FirstNew(mm.q)].cls.cb)}
+                        ELSE {})
+             ELSE {})
 
 \* ---- TLS record framing of raw server bytes after the switch (C18) ----
 RECURSIVE TlsStrip(_)
@@ -306,6 +312,11 @@ Step ==
             LET r == Consume(Advance([m EXCEPT !.ob = @ \o e.b]), viol, l, FALSE) IN m' = r.m /\ viol' = r.v
        [] e.e = "fl" ->
             LET r == Consume(Advance([m EXCEPT !.unfl = 0]), viol, l, FALSE) IN m' = r.m /\ viol' = r.v
+       [] e.e \in {"rd", "rd_err"} /\ m.quit /\ ~m.fault /\ ~m.lost /\ ~m.free ->
+            \* the client's QUIT has been received and everything before it served: the connection is over, the
+            \* server has no business reading on (whatever such a read returns must not turn the clean end into an error)
+            /\ m' = [m EXCEPT !.lost = TRUE]
+            /\ viol' = viol \cup {V("C19", l, "the server reads from the transport after the client's QUIT")}
        [] e.e = "rd" ->
             LET r0 == Consume(Advance(m), viol, l, TRUE)
                 v1 == r0.v \cup SyncViol(r0.m, l)
@@ -328,6 +339,14 @@ Step ==
             /\ m' = IF "kind" \in DOMAIN e /\ e.kind = "Interrupted" THEN [m EXCEPT !.eintr = TRUE]
                     ELSE [m EXCEPT !.fault = TRUE, !.dead = IF @ = "" THEN "transport fault" ELSE @]
             /\ UNCHANGED viol
+       [] e.e = "tls_close" ->
+            \* the scripted TLS client has sent everything and closes its side (close_notify): a clean end of the stream
+            /\ m' = [m EXCEPT !.closing = TRUE]
+            /\ UNCHANGED viol
+       [] e.e = "tls_partial" ->
+            \* the scripted TLS client has started a record that it will not finish: the stream ends inside it
+            /\ m' = [m EXCEPT !.partial = TRUE]
+            /\ UNCHANGED viol
        [] e.e = "tls_fail" ->
             /\ m' = [m EXCEPT !.lost = TRUE]
             /\ viol' = viol \cup {V("C18", l, "TLS session failed: " \o e.msg)}
@@ -340,7 +359,11 @@ Step ==
                                                       THEN {V("C11", l, "after_authentication was called for a connection that had to be refused, without the client's user name")}
                                                       ELSE {})
                          ELSE {}
-            IN IF mm.lost \/ mm.free THEN m' = mm /\ viol' = r0.v \cup vdead
+                \* (the queue of commands comes from the client's bytes alone: a callback with no command to answer
+                \* is wrong however the replies looked so far)
+                vnocmd == IF ~mm.free /\ ~m.free /\ i = 0 /\ e.name # "auth"
+                          THEN {V("C02", l, "callback " \o e.name \o " although no client command is waiting for one")} ELSE {}
+            IN IF mm.lost \/ mm.free THEN m' = mm /\ viol' = r0.v \cup vdead \cup vnocmd
                ELSE IF i = 0 THEN
                  /\ m' = [mm EXCEPT !.lost = TRUE]
                  /\ viol' = r0.v \cup vdead \cup {V(IF e.name = "auth" THEN "C11" ELSE "C02", l, "callback " \o e.name \o " without a pending command")}
@@ -404,6 +427,9 @@ Step ==
                       /\ viol' = viol
                            \cup (IF e.ct # w.ct THEN {V(t, l, "parameter type code differs from the bound type") : t \in tags} ELSE {})
                            \cup (IF ~InnerCmp(e.inner, w.inner) THEN {V(t, l, "parameter value differs from what the client sent") : t \in tags} ELSE {})
+                           \* (a well-formed, non-negative TIME of any day count converts to a Duration: never a panic)
+                           \cup (IF ~ce.judge /\ w.inner.t = "time" /\ e.conv.t = "panic" /\ WellFormedTime(w.inner.b)
+                                 THEN {V("C08", l, "conversion of a time parameter panicked at " \o e.conv.site)} ELSE {})
                            \cup (IF ce.judge /\ InnerCmp(e.inner, w.inner) /\ ~ConvCmp(e.conv, ce.c) THEN {V("C08", l, IF e.conv.t = "panic" THEN "conversion of a " \o w.inner.t \o " parameter panicked at " \o e.conv.site
                                                  ELSE "converted " \o w.inner.t \o " parameter differs from what the client encoded")} ELSE {})
        [] e.e = "pv_panic" ->
@@ -504,7 +530,7 @@ Step ==
                 res == e.result
                 \* the client closed the connection at a command boundary (whether the server served what it had
                 \* received is another matter: C02/C12)
-                clean == mm.eof /\ mm.inb = << >> /\ mm.phase # "greet" /\ mm.hsdone
+                clean == (mm.eof \/ mm.closing) /\ mm.inb = << >> /\ mm.phase # "greet" /\ mm.hsdone /\ ~mm.partial
                 expectOk == mm.dead = "" /\ (mm.quit \/ clean)
                 vres ==
                   IF res = "panic" THEN
@@ -542,7 +568,7 @@ Step ==
                                     \cup (IF mm.q[i].seq = 255 THEN {V("C05", l, "request with sequence id 255 is not answered with sequence id 0 (panic)")} ELSE {})
                           ELSE {}
                 \* a connection that was upgraded to TLS and on which nothing failed must be served to the end
-                vtls == IF mm.ctls /\ mm.enc /\ mm.dead = "" /\ ~mm.fault /\ ~mm.free /\ res # "ok"
+                vtls == IF mm.ctls /\ mm.enc /\ mm.dead = "" /\ ~mm.fault /\ ~mm.free /\ ~mm.partial /\ res # "ok"
                         THEN {V("C18", l, "connection not served after the TLS upgrade (result " \o res \o ")")} ELSE {}
                 vmissed == IF res = "ok" /\ ~mm.lost /\ ~mm.free /\ mm.dead = "" /\ ~mm.quit /\ FirstNew(mm.q) # 0 /\ mm.q[FirstNew(mm.q)].cls.cb # ""
                            THEN {V("C02", l, "a command never reached its callback " \o mm.q[FirstNew(mm.q)].cls.cb)}
